@@ -50,7 +50,7 @@ Inductive obs :=
 | OItem (o : option nat)
 | OList (l : list nat)
 | ORanges (l : list range)               (* make_distinct: bounds() of every item afterwards *)
-| OSearch (best : option nat) (b : range)
+| OSearch (best : option nat) (b : range) (rets : list bool)   (* search(), bounds(), value of every tighten_bounds() call of the search *)
 | OValueError                            (* make_distinct: "Could not tighten ... to a finite bound" *)
 | OFail.                                 (* any other exception, or no answer within the wall-clock guard *)
 
@@ -120,7 +120,7 @@ Definition holds_search (items : list schedule) (o : obs) : bool :=
   match items with
   | [] => true
   | _ => match o with
-         | OSearch (Some i) b => is_min_final items i && range_eqb b (point (fin_at items i))
+         | OSearch (Some i) b _ => is_min_final items i && range_eqb b (point (fin_at items i))
          | _ => false
          end
   end.
